@@ -355,13 +355,18 @@ def final_attempt_program(base, max_attempts):
     """The program in which every scenario has the outcomes of its final auto-retry attempt."""
     from ..program import all_steps_of, scenario_instances, step_outcome
     expected = copy.deepcopy(base)
+    named = set((n, i) for n, i, _e in base.get("hook_faults_named") or [])
     for f in expected["features"]:
         for inst in scenario_instances(f):
             steps = all_steps_of(f, inst)
             wip = "wip" in refmodel.effective_tags(f, inst)
+            # a scenario hook that raises in every attempt: every attempt fails
+            always = ("before_scenario", inst["name"]) in named or ("after_scenario", inst["name"]) in named
             final = 0
             for a in range(max_attempts):
                 final = a
+                if always:
+                    continue
                 outs = []
                 for s in steps:
                     if s["o"] == "act":
@@ -421,6 +426,8 @@ def check_autoretry(res, case):
                  "statuses after auto-retry differ from a fresh run of the final attempts: %s" % d)
     check_model(res, run.features, None)
     res.label("autoretry")
+    if base.get("hook_faults_named"):
+        res.label("autoretry:hook-raises-in-every-attempt")
     if case.get("whole_outlines") and any(it["k"] == "o" and sum(len(e["rows"]) for e in it["ex"]) >= 2
                                           for f in base["features"] for it, _r in iter_items(f)):
         res.label("autoretry:outline-as-a-whole")
@@ -461,6 +468,21 @@ def act_program(draw, allow_bg_acts=True, with_skip=False, with_interrupt=True, 
     return prog
 
 
+@st.composite
+def autoretry_case(draw):
+    prog = strip_skip(draw(act_program(allow_bg_acts=False, with_interrupt=False)))
+    case = {"kind": "autoretry", "program": prog, "attempts": draw(st.integers(2, 3)), "whole_outlines": draw(st.booleans())}
+    if draw(st.integers(0, 3)) == 0:
+        # a scenario hook that raises for one scenario in EVERY attempt
+        from ..program import normalize
+        normalize(prog)
+        names = [i["name"] for _f, i in runcheck.instances(prog)]
+        if names:
+            prog["hook_faults_named"] = [[draw(st.sampled_from(["after_scenario", "after_scenario", "before_scenario"])),
+                                          draw(st.sampled_from(names)), "Exception"]]
+    return case
+
+
 def strip_skip(prog, also=("interrupt",)):
     """scenario.skip() in a step excludes the scenario from later runs by design."""
     for f in prog["features"]:
@@ -488,16 +510,13 @@ def explore(rec):
     # without reset every scenario must be visited again by the later run: no --stop, no interrupt
     rec.hyp("rerun-no-reset", act_program(with_skip=False, with_interrupt=False, flags=()).map(
         lambda p: {"kind": "rerun", "program": strip_skip(p), "runs": 2, "reset": False}), 700 if quick else 20000)
-    rec.hyp("autoretry", st.builds(lambda p, n, w: {"kind": "autoretry", "program": strip_skip(p), "attempts": n,
-                                                    "whole_outlines": w},
-                                   act_program(allow_bg_acts=False, with_interrupt=False), st.integers(2, 3), st.booleans()),
-            700 if quick else 20000)
+    rec.hyp("autoretry", autoretry_case(), 1000 if quick else 25000)
 
 
 def required_labels(tier):
     return ["status-enum", "synthetic:scenario", "synthetic:outline", "synthetic:feature", "synthetic:rule",
             "run", "cut-short", "hook-fault", "raising-cleanup", "dry-run", "rerun:reset", "rerun:no-reset",
-            "autoretry", "autoretry:outline-as-a-whole"]
+            "autoretry", "autoretry:outline-as-a-whole", "autoretry:hook-raises-in-every-attempt"]
 
 
 def _f2_scenario_skipped(case, detail, info):
